@@ -55,7 +55,17 @@ func genC17(t *rapid.T) any {
 	c.Opts.NoFragments = rapid.IntRange(0, 4).Draw(t, "nofrag") == 0
 	bs := int(c.BS)
 	nf := rapid.IntRange(3, 10).Draw(t, "nfiles")
+	if rapid.IntRange(0, 3).Draw(t, "manyFiles") == 0 {
+		// enough inodes and directory entries for several 8 KiB metadata blocks per table, so that goroutines
+		// starting on different files miss on different metadata blocks at the same time
+		nf = rapid.SampledFrom([]int{90, 99}).Draw(t, "nfilesMany")
+	}
 	for i := 0; i < nf; i++ {
+		if nf > 10 {
+			// sparse-looking multi-block files have long block lists: the inode table grows to tens of KiB
+			c.Files = append(c.Files, []int{1, 100, 24*bs + 5, bs / 3, 40*bs + 1}[i%5])
+			continue
+		}
 		c.Files = append(c.Files, rapid.SampledFrom([]int{1, 100, bs / 3, bs - 1, bs, bs + 1, 2*bs + 77, 5*bs + bs/2, 9 * bs}).Draw(t, "fsize"))
 	}
 	c.Cache = rapid.SampledFrom([]int{-1, 0, 1, bs, 2 * bs, 4 * bs, 1 << 20}).Draw(t, "cache")
@@ -128,6 +138,9 @@ func execC17Once(ci any, budget time.Duration) (r hx.Result) {
 		working += sz
 	}
 	size := int64(8 << 20)
+	if int64(working)*2+(4<<20) > size {
+		size = (int64(working)*2 + (4 << 20)) / 4096 * 4096
+	}
 	d := dev.New(size)
 	if err := mk.BuildSquashfs(d, size, 0, c.BS, tree, c.Opts); err != nil {
 		r.Discard = true
